@@ -1,8 +1,10 @@
 (* C11 -- Work partitions are an exact, chunk-aligned cover of the records.
    Statements are about the definitions REGENERATED from /repo (Gen/GenPartitions.v). *)
 From Coq Require Import ZArith List Bool.
+From Flocq Require Raux.
 From B2Z Require Import Base.Prims Model.Partitions Proofs.PartitionsProofs Bridge.BridgePartitions.
-From B2Z Require Gen.GenPartitions.
+From B2Z Require Gen.GenPartitions Gen.GenBuffer.
+From B2Z Require Base.CeilDiv.
 Import ListNotations.
 Open Scope Z_scope.
 
@@ -54,3 +56,27 @@ Print Assumptions zero_records_rejected.
 Example c11_instance :
   GenPartitions.generate_partitions 9 2 3 (Some 4) = Ok [(0, 4); (4, 6); (6, 8)].
 Proof. vm_compute. reflexivity. Qed.
+
+(* `num_chunks = int(np.ceil(num_records / chunk_size))` in the source is binary64 arithmetic: `/` is the
+   correctly rounded (nearest-even) quotient of the two Python ints.  For 0 <= a < 2^53 and
+   1 <= b < 2^53 its ceiling IS the exact ceiling of the rational a/b, the meaning
+   Base/Prims.ceil_truediv gives to the expression the translator emits (Flocq's binary64 format:
+   radix 2, precision 53, emin -1074; this theorem depends on the real-number axioms of the standard
+   library, listed in the trusted base -- no other theorem of the development does) *)
+Theorem float_ceil_division_exact : forall a b, 0 <= a < 2 ^ 53 -> 1 <= b < 2 ^ 53 ->
+  Raux.Zceil (CeilDiv.fl (Rdefinitions.Rdiv (Rdefinitions.IZR a) (Rdefinitions.IZR b))) = ceil_truediv a b.
+Proof. exact CeilDiv.ceil_fdiv. Qed.
+Print Assumptions float_ceil_division_exact.
+
+(* the chunk buffer refuses an offset that is not on a chunk boundary (TRANSLATED BufferedArray.__init__),
+   and the partitions above only ever start on one *)
+Theorem buffer_requires_aligned_offset : forall chunk0 shape0 offset, 1 <= chunk0 ->
+  (exists st, GenBuffer.init chunk0 shape0 offset = Ok st) <-> offset mod chunk0 = 0.
+Proof.
+  intros chunk0 shape0 offset H. unfold GenBuffer.init. destruct (Z.eqb_spec (offset mod chunk0) 0) as [E|E]; split; intros H1.
+  - exact E.
+  - eexists. reflexivity.
+  - destruct H1 as [st H1]. discriminate.
+  - contradiction.
+Qed.
+Print Assumptions buffer_requires_aligned_offset.
